@@ -645,13 +645,15 @@ def translate_all2(repo=REPO):
                 try:
                     FnTranslator(node).translate()
                     term = '.unsupported "translated in the first subset"'
-                except (Unsupported, RecursionError):
+                except Exception:        # noqa: BLE001  (Unsupported, RecursionError, or the serialiser tripping)
                     try:
                         term = Fn2Translator(node).translate()
                     except Unsupported as u:
                         term = ".unsupported %s" % lstr(str(u))
                     except RecursionError:
                         term = '.unsupported "too deep"'
+                    except Exception as exc:        # noqa: BLE001
+                        term = ".unsupported %s" % lstr("translator: %s" % type(exc).__name__)
                 out.append((node.name, term))
     return out
 
@@ -669,11 +671,28 @@ def translate_all(repo=REPO):
                     term = ".unsupported %s" % lstr(str(u))
                 except RecursionError:
                     term = '.unsupported "too deep"'
+                except Exception as exc:        # noqa: BLE001  a source the serialiser trips over is outside the subset
+                    term = ".unsupported %s" % lstr("translator: %s" % type(exc).__name__)
                 fns.append((node.name, term))
     return fns
 
 
+# the functions the model driver refers to by name (JS/Py/EvalSrc.lean): always emitted, `unsupported` when the
+# working tree no longer has them (so that the driver still builds and the tie, not the build, reports it)
+EXPECTED = ["patternProperties", "propertyNames", "additionalProperties", "items", "additionalItems", "const", "contains",
+            "exclusiveMinimum", "exclusiveMaximum", "minimum", "maximum", "multipleOf", "minItems", "maxItems", "uniqueItems",
+            "pattern", "format", "minLength", "maxLength", "dependencies", "enum", "ref", "type", "properties", "required",
+            "minProperties", "maxProperties", "allOf", "anyOf", "oneOf", "not_", "if_", "dependencies_draft3", "disallow_draft3",
+            "extends_draft3", "items_draft3_draft4", "minimum_draft3_draft4", "maximum_draft3_draft4", "properties_draft3",
+            "type_draft3"]
+
+
 def render(fns, fns2=None):
+    have = {n for n, _ in fns}
+    fns = list(fns) + [(n, '.unsupported "function not found in the source"') for n in EXPECTED if n not in have]
+    if fns2 is not None:
+        have2 = {n for n, _ in fns2}
+        fns2 = list(fns2) + [(n, '.unsupported "function not found in the source"') for n in EXPECTED if n not in have2]
     lines = ["/- GENERATED by harness/translate.py from the working tree's jsonschema/_validators.py and",
              "   _legacy_validators.py — do not edit. -/",
              "import JS.Py.IR2",
